@@ -250,14 +250,14 @@ def run (c : Cfg) : State → List Tid → Option State
 inductive Label
   | tau | acq | rel
   | new (e : Ev) | app (e : Ev) | wait (e : Ev) | set (e : Ev) | pop (e : Ev)
-  | txnOpen | txnClose | wevClear | ver | verDrop | nod | rdAdd | rdDel | ret | rret | seen
+  | txnOpen | txnClose | wevClear | setup | ver | verDrop | nod | rdAdd | rdDel | ret | rret | seen
   | stuck
 deriving DecidableEq, Repr
 
 def label (_c : Cfg) (s : State) (t : Tid) : Label :=
   let l := s.loc t
   match l.pc with
-  | .idle | .wInit | .wTest | .wSetupId | .wSetupCopy | .wBody | .cPrune | .eTestW | .rdPick | .xPrune => .tau
+  | .idle | .wInit | .wTest | .wSetupId | .wBody | .cPrune | .eTestW | .rdPick | .xPrune => .tau
   | .wAcq | .cAcq | .rAcq | .rdAcq | .xAcq => .acq
   | .wRelA | .wRelB | .eRel | .rdRel | .xRel | .rdFail => .rel
   | .wMkTxn => .txnOpen
@@ -265,6 +265,7 @@ def label (_c : Cfg) (s : State) (t : Tid) : Label :=
   | .wNewEv => .new s.nextEv
   | .wAppend => match l.ev with | some e => .app e | none => .stuck
   | .wWait => match l.ev with | some e => .wait e | none => .stuck
+  | .wSetupCopy => .setup   -- the `writable_version_factory` hook / the copy of the node map: observable, and outside the lock
   | .wReturn => .ret
   | .cAppend => .ver
   | .cUndo => .verDrop
